@@ -145,16 +145,16 @@ def analyzeBlock (obuf nbuf : Bytes) (search : Nat → Nat × Nat) (offset : Nat
 
 /-! ### block plan -/
 
-/-- Block planning of `Do`: `(blockSize, numBlocks)` or a division by zero. `scanBlock` is 128 KiB in the code. -/
-def blockPlan (scanBlock : Nat) (partitions obuflen nbuflen : Nat) : Outcome (Nat × Nat × Nat) :=
+/-- Block planning of `Do`: `(partitions, blockSize, numBlocks)`. `scanBlock` is 128 KiB in the code.
+    When the new file is smaller than the partition count the block size is clamped to 1. -/
+def blockPlan (scanBlock : Nat) (partitions obuflen nbuflen : Nat) : Nat × Nat × Nat :=
   let p := if partitions = 0 ∨ partitions + 1 ≥ obuflen then 1 else partitions
   let blockSize := scanBlock
   let numBlocks := (nbuflen + blockSize - 1) / blockSize
   if numBlocks < p then
-    let blockSize := nbuflen / p
-    if blockSize = 0 then .panic "integer divide by zero (blockSize = nbuflen / partitions)"
-    else .ok (p, blockSize, (nbuflen + blockSize - 1) / blockSize)
-  else .ok (p, blockSize, numBlocks)
+    let blockSize := if nbuflen / p < 1 then 1 else nbuflen / p
+    (p, blockSize, (nbuflen + blockSize - 1) / blockSize)
+  else (p, blockSize, numBlocks)
 
 /-- Matches of all blocks in block order. `searchFor boundary len` is the search for the block at `boundary`. -/
 def allMatches (obuf nbuf : Bytes) (searchFor : Nat → Nat → Nat → Nat × Nat) (blockSize : Nat) :
@@ -186,19 +186,16 @@ def writeMessages (obuf nbuf : Bytes) : List Match → List Ctrl
     .op (addBytes obuf nbuf m) (copyBytes nbuf m) ((m'.addOldStart : Int) - (m.addOldStart + m.addLength))
       :: writeMessages obuf nbuf (m' :: ms)
 
-/-- `DiffContext.Do` at the level of control messages. -/
+/-- `DiffContext.Do` at the level of control messages (`.err` only if the fuel of `analyzeBlock` ran out,
+    which `C12.analyzeBlock_tiles` rules out). -/
 def diff (scanBlock : Nat) (partitions : Nat) (obuf nbuf : Bytes)
     (searchFor : Nat → Nat → Nat → Nat × Nat) : Outcome (List Ctrl) :=
   if nbuf.size = 0 then .ok [.eof]
-  else if obuf.size = 0 then .panic "suffix sort of an empty old file (gosaca index -1)"
   else
-    match blockPlan scanBlock partitions obuf.size nbuf.size with
-    | .panic s => .panic s
-    | .err e => .err e
-    | .ok (_, blockSize, numBlocks) =>
-      match allMatches obuf nbuf searchFor blockSize numBlocks 0 with
-      | none => .err "fuel"
-      | some ms => .ok (writeMessages obuf nbuf ms)
+    let (_, blockSize, numBlocks) := blockPlan scanBlock partitions obuf.size nbuf.size
+    match allMatches obuf nbuf searchFor blockSize numBlocks 0 with
+    | none => .err "fuel"
+    | some ms => .ok (writeMessages obuf nbuf ms)
 
 /-! ### Apply -/
 
@@ -243,38 +240,40 @@ def suffixLt (buf : Bytes) (en : Nat) : Nat → Nat → Nat → Bool
 def suffixArray (buf : Bytes) (st en : Nat) : Array Nat :=
   ((List.range (en - st)).mergeSort (fun i j => !(suffixLt buf en (en - st + 1) (st + j) (st + i)))).toArray
 
-def matchlen (obuf : Bytes) (en : Nat) (nbuf : Bytes) (i q : Nat) : Nat → Nat
+/-- `matchlen(obuf[i:en], nbuf[q:qen])` -/
+def matchlen (obuf : Bytes) (en : Nat) (nbuf : Bytes) (qen : Nat) (i q : Nat) : Nat → Nat
   | 0 => 0
   | fuel + 1 =>
-    if i < en ∧ q < nbuf.size ∧ at' obuf i == at' nbuf q then 1 + matchlen obuf en nbuf (i + 1) (q + 1) fuel else 0
+    if i < en ∧ q < qen ∧ at' obuf i == at' nbuf q then 1 + matchlen obuf en nbuf qen (i + 1) (q + 1) fuel else 0
 
-/-- `bytes.Compare(obuf[i:en], nbuf[q:]) < 0` -/
-def cmpLt (obuf : Bytes) (en : Nat) (nbuf : Bytes) : Nat → Nat → Nat → Bool
+/-- `bytes.Compare(obuf[i:en], nbuf[q:qen]) < 0` -/
+def cmpLt (obuf : Bytes) (en : Nat) (nbuf : Bytes) (qen : Nat) : Nat → Nat → Nat → Bool
   | 0, _, _ => false
   | fuel + 1, i, q =>
-    if i ≥ en then decide (q < nbuf.size)
-    else if q ≥ nbuf.size then false
+    if i ≥ en then decide (q < qen)
+    else if q ≥ qen then false
     else if at' obuf i < at' nbuf q then true
     else if at' obuf i > at' nbuf q then false
-    else cmpLt obuf en nbuf fuel (i + 1) (q + 1)
+    else cmpLt obuf en nbuf qen fuel (i + 1) (q + 1)
 
-/-- `search(I, obuf, nbuf, st, en)` on the partition `[pst, pen)`; positions relative to the partition. -/
-def searchSA (obuf : Bytes) (pst pen : Nat) (I : Array Nat) (nbuf : Bytes) (q : Nat) : Nat → Nat → Nat → Nat × Nat
+/-- `search(I, obuf, nbuf, st, en)` on the partition `[pst, pen)` for the query `nbuf[q:qen]`;
+    positions relative to the partition. -/
+def searchSA (obuf : Bytes) (pst pen : Nat) (I : Array Nat) (nbuf : Bytes) (qen q : Nat) : Nat → Nat → Nat → Nat × Nat
   | 0, st, _ => (I.getD st 0, 0)
   | fuel + 1, st, en =>
     let plen := pen - pst
     if en - st < 2 then
-      let x := matchlen obuf pen nbuf (pst + I.getD st 0) q (plen + 1)
+      let x := matchlen obuf pen nbuf qen (pst + I.getD st 0) q (plen + 1)
       if en ≥ plen then (I.getD st 0, x)
       else
-        let y := matchlen obuf pen nbuf (pst + I.getD en 0) q (plen + 1)
+        let y := matchlen obuf pen nbuf qen (pst + I.getD en 0) q (plen + 1)
         if x > y then (I.getD st 0, x) else (I.getD en 0, y)
     else
       let x := st + (en - st) / 2
-      if cmpLt obuf pen nbuf (plen + nbuf.size + 1) (pst + I.getD x 0) q then
-        searchSA obuf pst pen I nbuf q fuel x en
+      if cmpLt obuf pen nbuf qen (plen + qen + 1) (pst + I.getD x 0) q then
+        searchSA obuf pst pen I nbuf qen q fuel x en
       else
-        searchSA obuf pst pen I nbuf q fuel st x
+        searchSA obuf pst pen I nbuf qen q fuel st x
 
 structure PSA where
   bounds : Array (Nat × Nat)
@@ -287,12 +286,13 @@ def mkPSA (obuf : Bytes) (p : Nat) : PSA :=
   { bounds := bounds, sas := bounds.map fun (st, en) => suffixArray obuf st en }
 
 /-- `PSA.search(nbuf[q:])`: best match over all partitions (first best wins). -/
-def psaSearch (obuf : Bytes) (psa : PSA) (nbuf : Bytes) (q : Nat) : Nat × Nat := Id.run do
+def psaSearch (obuf : Bytes) (psa : PSA) (nbuf : Bytes) (qen q : Nat) : Nat × Nat := Id.run do
   let mut bpos := 0
   let mut bn := 0
   for k in [0:psa.bounds.size] do
     let (st, en) := psa.bounds.getD k (0, 0)
-    let (ppos, pn) := searchSA obuf st en (psa.sas.getD k #[]) nbuf q (en - st + 2) 0 (en - st)
+    if en == st then continue   -- nothing to find in an empty partition
+    let (ppos, pn) := searchSA obuf st en (psa.sas.getD k #[]) nbuf qen q (en - st + 2) 0 (en - st)
     if pn > bn then
       bn := pn
       bpos := ppos + st
@@ -301,7 +301,8 @@ def psaSearch (obuf : Bytes) (psa : PSA) (nbuf : Bytes) (q : Nat) : Nat × Nat :
 /-- The executable differ with the concrete search. -/
 def diffExec (scanBlock partitions : Nat) (obuf nbuf : Bytes) : Outcome (List Ctrl) :=
   let p := if partitions = 0 ∨ partitions + 1 ≥ obuf.size then 1 else partitions
-  let psa := if obuf.size = 0 then { bounds := #[], sas := #[] } else mkPSA obuf p
-  diff scanBlock partitions obuf nbuf (fun boundary _len scan => psaSearch obuf psa nbuf (boundary + scan))
+  let psa := mkPSA obuf p
+  diff scanBlock partitions obuf nbuf
+    (fun boundary len scan => psaSearch obuf psa nbuf (boundary + len) (boundary + scan))
 
 end Wharf.Bsdiff
